@@ -10,7 +10,8 @@ class Ctx:
 class Seq:
     """K1: sequential differential of suite `suite` (real code vs Lean model) + spec-vs-real (F)."""
     kind = "K1"
-    def __init__(self, suite, quick, thorough, proj_model=ident, proj_spec=ident, label=None, signature=None, crash_is_violation=False):
+    def __init__(self, suite, quick, thorough, proj_model=ident, proj_spec=ident, label=None, signature=None, crash_is_violation=False, enum=None):
+        self.enum = enum      # function(tier) -> iterable of (header, [ops]): a small scope enumerated COMPLETELY on every run
         self.crash_is_violation = crash_is_violation
         self.suite, self.quick, self.thorough = suite, quick, thorough
         self.pm, self.ps = proj_model, proj_spec
@@ -32,6 +33,16 @@ class Seq:
                     runs.append(("corpus:" + fn, dict(replay=os.path.join(cdir, fn))))
         n = self.budget(ctx)
         runs.append(("gen", dict(seed=ctx.seed, ncases=n)))
+        if self.enum:
+            os.makedirs(wd, exist_ok=True)
+            ep = os.path.join(wd, "enum.cases")
+            ne = 0
+            with open(ep, "w") as f:
+                for header, ops in self.enum(ctx.tier):
+                    f.write("case %s\n%s\nend\n" % (header, "\n".join(ops)))
+                    ne += 1
+            runs.append(("enum", dict(replay=ep)))
+            out["stats_enum"] = {"cases_enumerated": ne, "exhaustive_small_scope": True}
         for label, kw in runs:
             sub = os.path.join(wd, label.replace(":", "_").replace("/", "_"))
             try:
@@ -50,6 +61,8 @@ class Seq:
                 out["distinct_nontrivial"] += r.distinct_nontrivial
                 out["stats"] = r.stats
                 out["samples"] = r.samples
+            elif label == "enum":
+                out["enum_cases"] = r.cases
             else:
                 out["corpus_cases"] += r.cases
             out["traces_validated"] += r.cases - len(r.k_bad)
